@@ -943,7 +943,11 @@ def make_logging_undefined(
         import logging
 
         logger = logging.getLogger(__name__)
-        logger.addHandler(logging.StreamHandler(sys.stderr))
+
+        # the default logger is shared by every class created without one:
+        # give it its handler only once
+        if not logger.handlers:
+            logger.addHandler(logging.StreamHandler(sys.stderr))
 
     def _log_message(undef: Undefined) -> None:
         logger.warning("Template variable warning: %s", undef._undefined_message)
